@@ -27,7 +27,7 @@ var _ hash.Hash
 //@ ensures [C07.aes-short] len(data) < 17 || len(data)%16 != 0 ==> result != nil
 //@ ensures [C04.aes-pad] result == nil ==> int(data[len(data)-1]) <= 16 && int(data[len(data)-1]) <= len(data)-17 &&
 //@    forall(qk, len(data)-1-int(data[len(data)-1]), len(data)-1, data[qk] == uint8(qk-(len(data)-1-int(data[len(data)-1])))+1)
-//@ ensures [C07.aes-payload] result == nil ==> aliases(a.Contents, data, 0, 16) && aliases(a.Payload, data, 16, len(data)-1-int(data[len(data)-1]))
+//@ ensures [C04+C07.aes-payload] result == nil ==> aliases(a.Contents, data, 0, 16) && aliases(a.Payload, data, 16, len(data)-1-int(data[len(data)-1]))
 
 // ---- payloads of the Open Session messages (13.17, 13.18)
 
@@ -58,7 +58,7 @@ var _ hash.Hash
 //@ func (*FullSensorRecord).DecodeFromBytes
 //@ props C05 C17 C07 C15 C20
 //@ ensures [C07.fsr-short] len(data) < 43 ==> result != nil
-//@ ensures [C07.fsr-key] result == nil ==> r.OwnerAddress == Address(data[0]) && r.Channel == Channel(data[1]/16) && r.OwnerLUN == LUN(data[1]%4) && r.Number == data[2]
+//@ ensures [C07+C15.fsr-key] result == nil ==> r.OwnerAddress == Address(data[0]) && r.Channel == Channel(data[1]/16) && r.OwnerLUN == LUN(data[1]%4) && r.Number == data[2]
 //@ ensures [C07.fsr-entity] result == nil ==> r.Entity == EntityID(data[3]) && r.IsContainerEntity == bit(data[4], 7) && r.Instance == EntityInstance(data[4]%128)
 //@ ensures [C07.fsr-type] result == nil ==> r.Ignore == bit(data[6], 7) && r.SensorType == SensorType(data[7]) && r.OutputType == OutputType(data[8])
 //@ ensures [C07+C15.fsr-units] result == nil ==> r.AnalogDataFormat == AnalogDataFormat(data[15]/64) && r.RateUnit == RateUnit(data[15]/8%8) &&
@@ -103,7 +103,7 @@ var _ hash.Hash
 //@ func (*GetChannelCipherSuitesRsp).DecodeFromBytes
 //@ props C05 C17 C07 C16
 //@ ensures [C07.suites-accept] (result == nil) == (len(data) >= 1)
-//@ ensures [C07.suites-chunk] result == nil ==> c.Channel == Channel(data[0]) && aliases(c.CipherSuiteRecordsChunk, data, 1, ite(len(data) > 17, 17, len(data)))
+//@ ensures [C07+C12+C16.suites-chunk] result == nil ==> c.Channel == Channel(data[0]) && aliases(c.CipherSuiteRecordsChunk, data, 1, ite(len(data) > 17, 17, len(data)))
 //@ ensures [C07.suites-layer] result == nil ==> aliases(c.Contents, data, 0, ite(len(data) > 17, 17, len(data))) && aliases(c.Payload, data, ite(len(data) > 17, 17, len(data)), len(data))
 
 // ---- get_chassis_status.go (28.2)
@@ -153,7 +153,7 @@ var _ hash.Hash
 //@ func (*GetSDRRsp).DecodeFromBytes
 //@ props C05 C17 C07 C14
 //@ ensures [C07.getsdr-accept] (result == nil) == (len(data) >= 2)
-//@ ensures [C07.getsdr] result == nil ==> uint16(s.Next) == le16(data, 0) && aliases(s.Contents, data, 0, 2) && aliases(s.Payload, data, 2, len(data))
+//@ ensures [C07+C14.getsdr] result == nil ==> uint16(s.Next) == le16(data, 0) && aliases(s.Contents, data, 0, 2) && aliases(s.Payload, data, 2, len(data))
 
 // ---- get_sdr_repository_info.go (33.9)
 
@@ -164,7 +164,7 @@ var _ hash.Hash
 //@ props C05 C17 C07 C14
 //@ ensures [C07.repoinfo-accept] (result == nil) == (len(data) >= 14)
 //@ ensures [C07.repoinfo-counts] result == nil ==> i.Version == specBCDVersion(data[0]) && i.Records == le16(data, 1) && i.FreeSpace == le16(data, 3)
-//@ ensures [C07.repoinfo-times] result == nil ==> i.LastAddition.Unix() == int64(le32(data, 5)) && i.LastErase.Unix() == int64(le32(data, 9))
+//@ ensures [C07+C14.repoinfo-times] result == nil ==> i.LastAddition.Unix() == int64(le32(data, 5)) && i.LastErase.Unix() == int64(le32(data, 9))
 //@ ensures [C07.repoinfo-support] result == nil ==> i.Overflow == bit(data[13], 7) && i.SupportsModalUpdate == bit(data[13], 6) && i.SupportsNonModalUpdate == bit(data[13], 5) &&
 //@    i.SupportsDelete == bit(data[13], 3) && i.SupportsPartialAdd == bit(data[13], 2) && i.SupportsReserve == bit(data[13], 1) && i.SupportsGetAllocationInformation == bit(data[13], 0)
 //@ ensures [C07.repoinfo-layer] result == nil ==> aliases(i.Contents, data, 0, 14) && aliases(i.Payload, data, 14, len(data))
@@ -228,15 +228,15 @@ var _ hash.Hash
 //@ ensures [C07.msg-checksum1] len(data) >= 7 && data[2] != -bsum8(data, 0, 2) ==> result != nil
 //@ ensures [C07.msg-checksum2] len(data) >= 7 && data[len(data)-1] != -bsum8(data, 3, len(data)-1) ==> result != nil
 //@ ensures [C07.msg-short-response] len(data) == 7 && data[1]/4%2 == 1 ==> result != nil
-//@ ensures [C07.msg-addr] result == nil ==> m.RemoteAddress == Address(data[0]) && m.Function == NetworkFunction(data[1]/4) && m.RemoteLUN == LUN(data[1]%4) &&
+//@ ensures [C07+C11.msg-addr] result == nil ==> m.RemoteAddress == Address(data[0]) && m.Function == NetworkFunction(data[1]/4) && m.RemoteLUN == LUN(data[1]%4) &&
 //@    m.LocalAddress == Address(data[3]) && m.Sequence == data[4]/4 && m.LocalLUN == LUN(data[4]%4) && m.Command == CommandNumber(data[5])
 //@ ensures [C07.msg-checksums] result == nil ==> m.Checksum1 == data[2] && m.Checksum2 == data[len(data)-1]
-//@ ensures [C07.msg-code] result == nil ==> m.CompletionCode == ite(data[1]/4%2 == 1, CompletionCode(data[6]), CompletionCode(0))
-//@ ensures [C07.msg-body] result == nil && (data[1]/4 == 0x2c || data[1]/4 == 0x2d) ==> m.Body == BodyCode(data[6+int(data[1]/4%2)]) && m.Enterprise == 0 &&
+//@ ensures [C07+C11.msg-code] result == nil ==> m.CompletionCode == ite(data[1]/4%2 == 1, CompletionCode(data[6]), CompletionCode(0))
+//@ ensures [C07+C11.msg-body] result == nil && (data[1]/4 == 0x2c || data[1]/4 == 0x2d) ==> m.Body == BodyCode(data[6+int(data[1]/4%2)]) && m.Enterprise == 0 &&
 //@    aliases(m.Payload, data, 7+int(data[1]/4%2), len(data)-1)
-//@ ensures [C07.msg-oem] result == nil && (data[1]/4 == 0x2e || data[1]/4 == 0x2f) ==> uint32(m.Enterprise) == le24(data, 6+int(data[1]/4%2)) && m.Body == 0 &&
+//@ ensures [C07+C11.msg-oem] result == nil && (data[1]/4 == 0x2e || data[1]/4 == 0x2f) ==> uint32(m.Enterprise) == le24(data, 6+int(data[1]/4%2)) && m.Body == 0 &&
 //@    aliases(m.Payload, data, 9+int(data[1]/4%2), len(data)-1)
-//@ ensures [C07.msg-plain] result == nil && data[1]/4 < 0x2c ==> m.Body == 0 && m.Enterprise == 0 && aliases(m.Payload, data, 6+int(data[1]/4%2), len(data)-1)
+//@ ensures [C07+C11.msg-plain] result == nil && data[1]/4 < 0x2c ==> m.Body == 0 && m.Enterprise == 0 && aliases(m.Payload, data, 6+int(data[1]/4%2), len(data)-1)
 //@ ensures [C07.msg-accept] len(data) >= 11 && data[2] == -bsum8(data, 0, 2) && data[len(data)-1] == -bsum8(data, 3, len(data)-1) ==> result == nil
 
 // ---- open_session.go (13.18)
@@ -249,13 +249,13 @@ var _ hash.Hash
 //@ ensures [C07.opensess-short] len(data) == 0 || (len(data) > 1 && len(data) < 7) ==> result != nil
 //@ ensures [C07.opensess-oklen] len(data) >= 7 && data[1] == 0 && len(data) != 36 ==> result != nil
 //@ ensures [C07.opensess-onebyte] len(data) == 1 && data[0] == 0 ==> result != nil
-//@ ensures [C07.opensess-err] result == nil && len(data) >= 7 && data[1] != 0 ==> o.Tag == data[0] && o.Status == StatusCode(data[1]) && o.RemoteConsoleSessionID == le32(data, 3) &&
+//@ ensures [C02+C07.opensess-err] result == nil && len(data) >= 7 && data[1] != 0 ==> o.Tag == data[0] && o.Status == StatusCode(data[1]) && o.RemoteConsoleSessionID == le32(data, 3) &&
 //@    o.MaxPrivilegeLevel == 0 && o.ManagedSystemSessionID == 0
-//@ ensures [C07.opensess-ok] result == nil && len(data) == 36 && data[1] == 0 ==> o.Tag == data[0] && o.Status == StatusCodeOK && o.MaxPrivilegeLevel == PrivilegeLevel(data[2]) &&
+//@ ensures [C02+C07+C12.opensess-ok] result == nil && len(data) == 36 && data[1] == 0 ==> o.Tag == data[0] && o.Status == StatusCodeOK && o.MaxPrivilegeLevel == PrivilegeLevel(data[2]) &&
 //@    o.RemoteConsoleSessionID == le32(data, 4) && o.ManagedSystemSessionID == le32(data, 8)
-//@ ensures [C07.opensess-algs] result == nil && len(data) == 36 && data[1] == 0 ==> o.AuthenticationPayload.Algorithm == AuthenticationAlgorithm(data[16]%64) &&
+//@ ensures [C07+C12.opensess-algs] result == nil && len(data) == 36 && data[1] == 0 ==> o.AuthenticationPayload.Algorithm == AuthenticationAlgorithm(data[16]%64) &&
 //@    o.IntegrityPayload.Algorithm == IntegrityAlgorithm(data[24]%64) && o.ConfidentialityPayload.Algorithm == ConfidentialityAlgorithm(data[32]%64)
-//@ ensures [C07.opensess-types] len(data) == 36 && data[1] == 0 && (data[12] != 0 || data[20] != 1 || data[28] != 2) ==> result != nil
+//@ ensures [C07+C12.opensess-types] len(data) == 36 && data[1] == 0 && (data[12] != 0 || data[20] != 1 || data[28] != 2) ==> result != nil
 
 // ---- operation.go, payload_descriptor.go, record_type.go
 
@@ -292,10 +292,10 @@ var _ hash.Hash
 //@ props C05 C17 C07 C02
 //@ ensures [C07.rakp2-short] len(data) < 8 || (data[1] == 0 && len(data) < 40) ==> result != nil
 //@ ensures [C07.rakp2-accept] len(data) >= 40 || (len(data) >= 8 && data[1] != 0) ==> result == nil
-//@ ensures [C07.rakp2-head] result == nil ==> r.Tag == data[0] && r.Status == StatusCode(data[1]) && r.RemoteConsoleSessionID == le32(data, 4)
-//@ ensures [C07.rakp2-ok] result == nil && data[1] == 0 ==> forall(qk, 0, 16, r.ManagedSystemRandom[qk] == data[8+qk]) && forall(qk, 0, 16, r.ManagedSystemGUID[qk] == data[24+qk]) &&
+//@ ensures [C02+C07.rakp2-head] result == nil ==> r.Tag == data[0] && r.Status == StatusCode(data[1]) && r.RemoteConsoleSessionID == le32(data, 4)
+//@ ensures [C02+C07.rakp2-ok] result == nil && data[1] == 0 ==> forall(qk, 0, 16, r.ManagedSystemRandom[qk] == data[8+qk]) && forall(qk, 0, 16, r.ManagedSystemGUID[qk] == data[24+qk]) &&
 //@    sameBytes(r.AuthCode, data, 40, len(data)-40)
-//@ ensures [C07.rakp2-err] result == nil && data[1] != 0 ==> forall(qk, 0, 16, r.ManagedSystemRandom[qk] == 0) && forall(qk, 0, 16, r.ManagedSystemGUID[qk] == 0) && len(r.AuthCode) == 0
+//@ ensures [C02+C07.rakp2-err] result == nil && data[1] != 0 ==> forall(qk, 0, 16, r.ManagedSystemRandom[qk] == 0) && forall(qk, 0, 16, r.ManagedSystemGUID[qk] == 0) && len(r.AuthCode) == 0
 
 // ---- rakp_message_4.go (13.23)
 
@@ -304,8 +304,8 @@ var _ hash.Hash
 
 //@ func (*RAKPMessage4).DecodeFromBytes
 //@ props C05 C17 C07 C02
-//@ ensures [C07.rakp4-accept] (result == nil) == (len(data) >= 8)
-//@ ensures [C07.rakp4] result == nil ==> r.Tag == data[0] && r.Status == StatusCode(data[1]) && r.RemoteConsoleSessionID == le32(data, 4) &&
+//@ ensures [C02+C07.rakp4-accept] (result == nil) == (len(data) >= 8)
+//@ ensures [C02+C07.rakp4] result == nil ==> r.Tag == data[0] && r.Status == StatusCode(data[1]) && r.RemoteConsoleSessionID == le32(data, 4) &&
 //@    ite(data[1] == 0, sameBytes(r.ICV, data, 8, len(data)-8), len(r.ICV) == 0)
 
 // ---- reserve_sdr_repository.go (33.11)
@@ -316,7 +316,7 @@ var _ hash.Hash
 //@ func (*ReserveSDRRepositoryRsp).DecodeFromBytes
 //@ props C05 C17 C07 C14
 //@ ensures [C07.reserve-accept] (result == nil) == (len(data) >= 2)
-//@ ensures [C07.reserve] result == nil ==> uint16(r.ReservationID) == le16(data, 0) && aliases(r.Contents, data, 0, 2)
+//@ ensures [C07+C14.reserve] result == nil ==> uint16(r.ReservationID) == le16(data, 0) && aliases(r.Contents, data, 0, 2)
 
 // ---- sdr.go (43, record header)
 
@@ -326,7 +326,7 @@ var _ hash.Hash
 //@ func (*SDR).DecodeFromBytes
 //@ props C05 C17 C07 C14
 //@ ensures [C07.sdr-accept] (result == nil) == (len(data) >= 5)
-//@ ensures [C07.sdr] result == nil ==> uint16(s.ID) == le16(data, 0) && s.Version == specBCDVersion(data[2]) && s.Type == RecordType(data[3]) && s.Length == data[4] &&
+//@ ensures [C07+C14.sdr] result == nil ==> uint16(s.ID) == le16(data, 0) && s.Version == specBCDVersion(data[2]) && s.Type == RecordType(data[3]) && s.Length == data[4] &&
 //@    aliases(s.Contents, data, 0, 5) && aliases(s.Payload, data, 5, len(data))
 
 // ---- session_selector.go
@@ -378,8 +378,8 @@ var _ hash.Hash
 //@ ensures [C07.v2-oemshort] len(data) >= 12 && data[1]%64 == 2 && len(data) < 18 ==> result != nil
 //@ ensures [C07.v2-length] len(data) >= 18 && 18+int(le16(data, 16)) > len(data) && data[1]%64 == 2 ==> result != nil
 //@ ensures [C07.v2-length-std] len(data) >= 12 && data[1]%64 != 2 && 12+int(le16(data, 10)) > len(data) ==> result != nil
-//@ ensures [C07.v2-flags] result == nil ==> s.Encrypted == bit(data[1], 7) && s.Authenticated == bit(data[1], 6) && s.PayloadType == PayloadType(data[1]%64)
-//@ ensures [C07.v2-std] result == nil && data[1]%64 != 2 ==> s.Enterprise == 0 && s.PayloadID == 0 && s.ID == le32(data, 2) && s.Sequence == le32(data, 6) && s.Length == le16(data, 10) &&
+//@ ensures [C04+C07.v2-flags] result == nil ==> s.Encrypted == bit(data[1], 7) && s.Authenticated == bit(data[1], 6) && s.PayloadType == PayloadType(data[1]%64)
+//@ ensures [C04+C07.v2-std] result == nil && data[1]%64 != 2 ==> s.Enterprise == 0 && s.PayloadID == 0 && s.ID == le32(data, 2) && s.Sequence == le32(data, 6) && s.Length == le16(data, 10) &&
 //@    aliases(s.Contents, data, 0, 12) && aliases(s.Payload, data, 12, 12+int(s.Length))
 //@ ensures [C07.v2-oem] result == nil && data[1]%64 == 2 ==> uint32(s.Enterprise) == le32(data, 2) && s.PayloadID == le16(data, 6) && s.ID == le32(data, 8) && s.Sequence == le32(data, 12) &&
 //@    s.Length == le16(data, 16) && aliases(s.Contents, data, 0, 18) && aliases(s.Payload, data, 18, 18+int(s.Length))
@@ -400,4 +400,4 @@ func SpecAESReady(a *AES128CBC) bool { return a.cipher != nil }
 //@ func NewAES128CBC
 //@ props C01 C03
 //@ assigns nothing
-//@ ensures [C01.aes-new] result1 == nil && !isnil(result0) && !isnil(result0.cipher) && forall(qk, 0, 16, aesKeyByte(result0.cipher, qk) == k2[qk])
+//@ ensures [C01+C03.aes-new] result1 == nil && !isnil(result0) && !isnil(result0.cipher) && forall(qk, 0, 16, aesKeyByte(result0.cipher, qk) == k2[qk])
